@@ -202,6 +202,16 @@ func runC05(c *vu.Case) {
 					switch x[0] {
 					case "hput": // hput:<msgkey>:<reckey>:<val>
 						rec := &recpb.Record{Key: []byte(c05Key(atoi(x[2]))), Value: valBytes(x[3])}
+						// a remote PUT_VALUE arrives stamped by its sender (a local PutValue stamps the record before it sends
+						// it): long ago, far in the future, garbage, or not at all. The receiver's own clock is what counts.
+						switch (tid + len(op)) % 4 {
+						case 0:
+							rec.TimeReceived = internal.FormatRFC3339(time.Now().Add(-3 * time.Hour))
+						case 1:
+							rec.TimeReceived = internal.FormatRFC3339(time.Now().Add(1000 * time.Hour))
+						case 2:
+							rec.TimeReceived = "sender-supplied"
+						}
 						m := pb.NewMessage(pb.Message_PUT_VALUE, []byte(c05Key(atoi(x[1]))), 0)
 						m.Record = rec
 						_, err := d.handlePutValue(tctx, from, m)
